@@ -19,6 +19,9 @@ type Subscription struct {
 	sub   Subscriber
 	field *Field
 	args  map[string]interface{}
+
+	// evType is the type of the events, the type of the subscription field.
+	evType Type
 }
 
 // NewSubscription creates a new subscription. It should be called in a
@@ -32,5 +35,7 @@ func NewSubscription(sub Subscriber, field *Field, args map[string]interface{}) 
 }
 
 func (sub *Subscription) prep(root *Root) {
-	sub.field.ConType = root.getFieldType(sub.field.ConType, sub.field.Name)
+	// The field belongs to the parsed executable which can be resolved
+	// again so the event type is kept here and not in the field.
+	sub.evType = root.getFieldType(sub.field.ConType, sub.field.Name)
 }
